@@ -424,7 +424,7 @@ register("C07", generated=["Shared"], streams=[Q("all", apis=["find_matches", "f
          observables=["calls", "results_exc", "segments"], oracles=[oracles.interleave_oracle, oracles.thread_oracle, oracles.reiter_oracle, oracles.long_iteration_oracle, oracles.fatigue_oracle],
          rule="iterators advanced k times (k below, at, beyond the number of results; extra next() calls after exhaustion); per-call segments of results and user-predicate calls compared with the machine model; interleavings of 2-5 iterators sharing path objects; real threads as support")
 register("C11", streams=[Q("nopar", apis=["find_matches"], src=None)],
-         observables=["full_results"], oracles=[oracles.match_truth_oracle, oracles.match_eq_oracle, oracles.eq_after_change_oracle],
+         observables=["full_results"], oracles=[oracles.match_truth_oracle, oracles.match_eq_oracle, oracles.eq_after_change_oracle, oracles.live_edit_oracle],
          rule="parent-free paths; every Match observable (path_as_str, data_name, data, path_match_list names, parent) compared; round trip through Match.path, duplicate-freedom and == on random pairs as python-side oracles")
 register("C12", streams=[Q("all", apis=ALL_APIS, src=True, untraced=0.4, share=3), Q("parent", apis=ALL_APIS, src=True, untraced=0.4, share=1),
                          Q("nopar", apis=ALL_APIS, src=True, untraced=0.4, share=1, up=1.0)],
@@ -442,7 +442,7 @@ register("C17", streams=[Q("all", apis=["find_matches", "find", "get_match"], sr
          extra=[families.MutateFamily("set", 500, 15000, "writers given a trace callable on every other call: outcome and object graph as without")],
          rule="full trace event stream (last_match, vertex index, next_match, predicate_match) compared with the machine model; unstamped events compared with the specification stream; traced vs untraced runs compared on the python side")
 register("C20", generated=["Budget"], streams=[Q("all", apis=["find_matches"], src=None, nexts="drain")],
-         observables=["attempts_bound", "results_exc", "tie:attempts"], oracles=[oracles.work_bound_oracle, oracles.rescan_oracle, oracles.cyclic_oracle, oracles.cyclic_optional_oracle, oracles.deep_oracle],
+         observables=["attempts_bound", "results_exc", "tie:attempts"], oracles=[oracles.work_bound_oracle, oracles.rescan_oracle, oracles.live_edit_oracle, oracles.cyclic_oracle, oracles.cyclic_optional_oracle, oracles.deep_oracle],
          extra=[families.GraphFamily("cyclic", 8, 150, "per-next() trace-event count and signal on self-referential structures under the real budget")],
          rule="number of trace events of a drained search compared with the specification's attempt count and with 2 x examinations; cyclic dict/list structures with the real budget as support")
 
@@ -469,7 +469,7 @@ register("C06", streams=[Q("all", apis=ALL_APIS, src=None, share=1, guarded=0.06
          observables=["results_exc"], oracles=[oracles.snapshot_oracle, oracles.reuse_oracle, oracles.interrupted_use_oracle], generated=["Stores"],
          rule="read-only calls (find / find_matches / get_match / get, traced and untraced, from a document or a Match, any has-family predicates) repeated 2-5 times on the same document and the same path object: deep snapshot (container identities, key order, list contents) before = after every call, the path renders like a never-evaluated twin, later evaluations select what the first did; plus the store table regenerated from the source")
 register("C16", streams=[Q("all", apis=ALL_APIS, src=None, share=1)], n_quick=1500, n_thorough=60000,
-         observables=["results_exc"], oracles=[oracles.documented_oracle, oracles.slice_mutation_oracle, oracles.deep_oracle, oracles.resume_after_loop_oracle, oracles.dash_root_oracle],
+         observables=["results_exc"], oracles=[oracles.documented_oracle, oracles.slice_mutation_oracle, oracles.deep_oracle, oracles.resume_after_loop_oracle, oracles.dash_root_oracle, oracles.live_edit_oracle],
          extra=[families.MutateFamily("set", 400, 15000, "error classes of set_ / set_match"),
                 families.MutateFamily("pop", 400, 15000, "error classes of pop / pop_match"),
                 families.BuilderFamily("dag", 400, 15000, "PathSyntaxError at construction for unsupported indices")],
